@@ -132,8 +132,8 @@ CHECKS["C19"] = dict(
 CHECKS["C15"] = dict(
     engine="symx+z3",
     technique="bounded symbolic execution (symx/z3) of the real greenlet glue + StackSlice slicing over solver-enumerated scenarios on real greenlets; oracle = shadow call log / gr_frame f_back walk",
-    text="GREENLET HALF ONLY. Parent chains of 1..3 (thorough 4) nested greenlets with 0..2 (3) calls each; target any greenlet of the chain; asked from the main greenlet, from the target itself and from a descendant (0..1 calls deeper); unstarted, dead and running-in-another-thread greenlets: exactly the target's own frames / no frames / a RuntimeError in .error.",
-    note="The greenback half of C15 (await_ bridges) is NOT covered: it needs a Trio task with a portal, i.e. the Trio run loop (same reasons as C14). LOW SOLVER LEVERAGE. PyPy greenlets are outside.",
+    text="Greenlets: parent chains of 1..3 (thorough 4) nested greenlets with 0..2 (3) calls each; target any greenlet of the chain; asked from the main greenlet, from the target itself and from a descendant (0..1 calls deeper); unstarted, dead and running-in-another-thread greenlets: exactly the target's own frames / no frames / a RuntimeError in .error; the current greenlet with a main / unstarted / dead parent. Greenback: sync/async alternation depth 0..3 (thorough 6) through await_ inside a Trio task with a portal (a real deterministic trio.run per path), observed from another task and from the innermost level: the visible frames are exactly the levels in order, bridging internals hidden.",
+    note="LOW SOLVER LEVERAGE. PyPy greenlets, greenback.async_context and free-running threads are outside.",
     ref="DESIGN.md 5.C15",
 )
 
